@@ -15,21 +15,41 @@ Local Open Scope nat_scope."""
 EP = "tensorly.tenalg.proximal."
 
 COLWISE = {"smoothness", "simplex", "soft_sparsity", "monotone_inc", "monotone_dec", "unimodality"}
-CONVEX = {"non_negative", "soft", "l2_square", "l2", "smoothness", "simplex", "monotone_inc", "monotone_dec"}
-PROJECTION = {"non_negative", "simplex", "monotone_inc", "monotone_dec", "hard", "soft_sparsity", "unimodality", "normalized_sparsity", "normalize"}
+CONVEX = {"non_negative", "soft", "l2_square", "l2", "smoothness", "simplex", "monotone_inc", "monotone_dec", "svt"}
+PROJECTION = {"non_negative", "simplex", "monotone_inc", "monotone_dec", "hard", "soft_sparsity", "unimodality", "normalized_sparsity", "normalize", "procrustes"}
 
 
 # ----------------------------------------------------------------------------- calling the implementation
+KW = {"non_negative": "non_negative", "soft": "l1_reg", "l2": "l2_reg", "l2_square": "l2_square_reg", "unimodality": "unimodality",
+      "normalize": "normalize", "simplex": "simplex", "normalized_sparsity": "normalized_sparsity", "soft_sparsity": "soft_sparsity",
+      "smoothness": "smoothness", "monotone_inc": "monotonicity", "hard": "hard_sparsity"}
+
+
+def spec_kwargs(route):
+    """route = {"specs": [[operator, style, mode, parameter], ...], "n_const": N, "order": o}: the keyword arguments of
+    proximal_operator; style 'scalar' (all modes), 'dict' ({mode: parameter}) or 'list' (parameter at position mode, None elsewhere)"""
+    kw = {}
+    for nm, style, mode, par in route["specs"]:
+        val = True if par is None else par
+        if style == "dict":
+            kw[KW[nm]] = {int(mode): val}
+        elif style == "list":
+            kw[KW[nm]] = [val if i == mode else None for i in range(route["n_const"])]
+        else:
+            kw[KW[nm]] = val
+    kw["n_const"] = route["n_const"]; kw["order"] = route["order"]
+    return kw
+
+
 def impl_call(name, a, par, route):
-    """route 'direct' -> the operator function, 'dispatch' -> proximal_operator(tensor, <constraint>=par)"""
+    """route 'direct' -> the operator function, 'dispatch' -> proximal_operator(tensor, <constraint>=par),
+    a dict -> proximal_operator with dict / list valued constraints, n_const and order (see spec_kwargs)"""
     from tensorly.tenalg import proximal as P
     a = np.array(a, copy=True)
+    if isinstance(route, dict):
+        return P.proximal_operator(a, **spec_kwargs(route))
     if route == "dispatch":
-        kw = {"non_negative": ("non_negative", True), "soft": ("l1_reg", par), "l2": ("l2_reg", par), "l2_square": ("l2_square_reg", par),
-              "unimodality": ("unimodality", True), "normalize": ("normalize", True), "simplex": ("simplex", par),
-              "normalized_sparsity": ("normalized_sparsity", par), "soft_sparsity": ("soft_sparsity", par),
-              "smoothness": ("smoothness", par), "monotone_inc": ("monotonicity", True), "hard": ("hard_sparsity", par)}[name]
-        return P.proximal_operator(a, **{kw[0]: kw[1]})
+        return P.proximal_operator(a, **{KW[name]: True if par is None else par})
     if name == "soft" or name == "soft_arr":
         return P.soft_thresholding(a, par)
     if name == "l2":
@@ -52,21 +72,36 @@ def impl_call(name, a, par, route):
         return P.hard_thresholding(a, par)
     if name == "normalized_sparsity":
         return P.normalized_sparsity_prox(a, par)
+    if name == "svt":
+        return P.svd_thresholding(a, par)
+    if name == "procrustes":
+        return P.procrustes(a)
     raise KeyError(name)
 
 
+def svd_tape(a):
+    """the answer of the SVD oracle exactly as svd_thresholding / procrustes request it"""
+    import tensorly as tl
+    U, s, V = tl.truncated_svd(np.array(a, copy=True), n_eigenvecs=min(a.shape))
+    return np.asarray(U, float), np.asarray(s, float), np.asarray(V, float)
+
+
 def can_dispatch(name, par):
-    # a falsy parameter (0, 0.0) means "no constraint" for proximal_operator; arrays are direct only
-    return name in ("non_negative", "normalize") or (name not in ("soft_arr", "monotone_dec") and not isinstance(par, np.ndarray) and bool(par))
+    """proximal_operator reaches the operator: flag constraints (parameter None -> True) and truthy scalar parameters
+    (a falsy parameter 0 / 0.0 means "no constraint"); array thresholds, decreasing=True and the SVD operators are direct only"""
+    if name in ("soft_arr", "monotone_dec", "svt", "procrustes", "identity") or isinstance(par, np.ndarray):
+        return False
+    return par is None or bool(par)
 
 
 def entry_point(name, route):
-    if route == "dispatch":
+    if route != "direct":
         return EP + "proximal_operator"
     return EP + {"soft": "soft_thresholding", "soft_arr": "soft_thresholding", "l2": "l2_prox", "l2_square": "l2_square_prox",
                  "smoothness": "smoothness_prox", "simplex": "simplex_prox", "soft_sparsity": "soft_sparsity_prox",
                  "monotone_inc": "monotonicity_prox", "monotone_dec": "monotonicity_prox", "unimodality": "unimodality_prox",
-                 "hard": "hard_thresholding", "normalized_sparsity": "normalized_sparsity_prox"}[name]
+                 "hard": "hard_thresholding", "normalized_sparsity": "normalized_sparsity_prox", "svt": "svd_thresholding",
+                 "procrustes": "procrustes"}[name]
 
 
 # ----------------------------------------------------------------------------- reference solvers (independent of the code and of the Coq model)
@@ -303,6 +338,45 @@ def check_output(name, par, a, out, rng):
             r = smooth_matrix(len(v), p) @ x - v
             if np.max(np.abs(r)) > 1e-9 * scale * (1 + 4 * abs(p)):
                 fails.append(("smoothness_optimal", f"column {j}: gradient of the objective is {float(np.max(np.abs(r)))!r}"))
+    return fails
+
+
+def check_svd_output(name, par, a, out, rng):
+    """svd_thresholding: KKT conditions of  t*|X|_* + 1/2 |X - M|_F^2  (|M - X|_2 <= t and <M - X, X> = t*|X|_*) and the objective
+    against competitors; procrustes: orthonormal columns (rows) and trace(Q^T M) = |M|_* (von Neumann: the maximum over the set)"""
+    a = np.asarray(a, float)
+    if not isinstance(out, np.ndarray) or out.shape != a.shape or not np.all(np.isfinite(out)):
+        return [("finite_same_size", f"output is not a finite array of the input's shape: {str(out)[:80]}")]
+    X = np.asarray(out, float); fails = []
+    scale = max(float(np.max(np.abs(a))), 1e-300)
+    sv = np.linalg.svd(a, compute_uv=False)
+    if name == "svt":
+        t = float(par); R = a - X
+        sx = np.linalg.svd(X, compute_uv=False)
+        big = max(scale, t)
+        if float(np.linalg.norm(R, 2)) > t + 1e-9 * big:
+            fails.append(("svt_optimal", f"spectral norm of M - X is {float(np.linalg.norm(R, 2))!r} > threshold {t!r}: M - X is not t times a subgradient of the nuclear norm at X"))
+        elif abs(float((R * X).sum()) - t * float(sx.sum())) > 1e-9 * big * big * a.size:
+            fails.append(("svt_optimal", f"<M - X, X> = {float((R * X).sum())!r} differs from t*|X|_* = {t * float(sx.sum())!r}"))
+        else:
+            def obj(Z):
+                return t * float(np.linalg.svd(Z, compute_uv=False).sum()) + 0.5 * float(((Z - a) ** 2).sum())
+            fx = obj(X); tol = 1e-9 * max(big * big, abs(fx))
+            U, s_, Vt = np.linalg.svd(a, full_matrices=False)
+            comps = [(U * np.maximum(s_ - t, 0)) @ Vt]
+            for _ in range(4):
+                Z = np.array([rng.gauss(0, 1) for _ in range(a.size)]).reshape(a.shape) * scale
+                comps += [Z, X + 0.05 * Z, X * (1 + 0.01 * rng.uniform(-1, 1)), a * rng.random()]
+            worst = min(obj(Z) for Z in comps)
+            if worst < fx - tol:
+                fails.append(("svt_optimal", f"objective {fx!r} at the output but {worst!r} at a competitor"))
+    else:
+        m, n = a.shape; k = min(m, n)
+        G = X.T @ X if m >= n else X @ X.T
+        if float(np.max(np.abs(G - np.eye(k)))) > 1e-9:
+            fails.append(("procrustes_feasible", f"output does not have orthonormal {'columns' if m >= n else 'rows'}: |G - I|_max = {float(np.max(np.abs(G - np.eye(k))))!r}"))
+        elif abs(float((X * a).sum()) - float(sv.sum())) > 1e-9 * scale * k:
+            fails.append(("procrustes_optimal", f"trace(Q^T M) = {float((X * a).sum())!r} but the maximum over the set (the nuclear norm of M) is {float(sv.sum())!r}"))
     return fails
 
 
